@@ -29,6 +29,12 @@ def gen_chrom(rng, name, ids, broken=None):
 
     def link(a, da, b, db):
         tags = rng.choice([[], ["SR:i:0"], ["L1:i:3", "L2:Z:x y"]])
+        if rng.random() < 0.06:
+            # two links between the same two node ends that differ in their overlap only (both untagged: the tool keeps one
+            # tag slot per pair of node ends, so tags on such a pair are outside what it can represent)
+            links.append((a, da, b, db, 0, []))
+            links.append((a, da, b, db, 3, []))
+            return
         if rng.random() < 0.5:
             links.append((a, da, b, db, 0, tags))
         else:
@@ -118,6 +124,15 @@ def gen_chrom(rng, name, ids, broken=None):
         pc, _ = new("%s_q" % name, 5, 7)
         link(b, "+", pb, "+")
         link(c, "+", pc, "+")
+    if broken == "hapmajor":
+        # not broken at all: one assembly contig contributes more segments than the reference does (a long multi-segment
+        # allele), so the component is NAMED after that contig; its scaffold nodes are still all on the reference
+        prevh = scaff[0]
+        for j in range(len([x for x in segs if x[1] == name]) + 2):
+            h, _ = new("%s_big" % name, 10 * j, 2)
+            link(prevh, "+", h, "+")
+            prevh = h
+        link(prevh, "+", scaff[1], "+")
     if broken == "ring":
         # a circular contig: the chain closed into a cycle is one biconnected block (no articulation point, no loose end)
         link(scaff[-1], "+", scaff[0], "+")
@@ -226,11 +241,15 @@ def make_case(rng):
     broken = {c: (rng.choice(["tips", "cycle3", "haptail", "ring", "pair"]) if rng.random() < 0.3 else None) for c in chroms}
     allsegs, alllinks = [], []
     scaffs = {}
-    for c in chroms:
-        s, l, sc = gen_chrom(rng, c, ids, broken[c])
+    for c in list(chroms):
+        hapmajor = broken[c] is None and rng.random() < 0.12
+        s, l, sc = gen_chrom(rng, c, ids, "hapmajor" if hapmajor else broken[c])
         allsegs += s
         alllinks += l
         scaffs[c] = (sc, len(s))
+        if hapmajor:      # the component is requested under the name of its majority contig
+            chroms[chroms.index(c)] = c + "_big"
+            broken[c + "_big"] = broken.pop(c)
     if rng.random() < 0.2:
         # a further chromosome joined end to end, through a haplotype node, to a small partner chromosome: one component
         # named after the bigger one, chain-shaped but with scaffold nodes of two stable sequences
